@@ -112,6 +112,15 @@ type DivByZero struct{ Pos token.Pos }
 
 func (d *DivByZero) Error() string { return "integer division by zero (the real code would panic)" }
 
+// NilDeref is returned when interpreted code dereferences a nil pointer (a run-time panic in Go).
+type NilDeref struct{ Pos token.Pos }
+
+func (d *NilDeref) Error() string { return "nil pointer dereference (the real code would panic)" }
+
+// TypedNil is a nil pointer stored in an interface value: it is not equal to
+// nil, and a type assertion to its pointer type succeeds and yields nil.
+type TypedNil struct{ T string }
+
 func unsup(pos token.Pos, format string, a ...any) error {
 	return &Unsupported{Pos: pos, What: fmt.Sprintf(format, a...)}
 }
@@ -133,6 +142,8 @@ type Interp struct {
 	// ReverseMaps makes range over a map run in descending key order (the
 	// default is ascending), so a rule can evaluate two iteration orders.
 	ReverseMaps bool
+	pinned      map[*Rec]bool
+	globalPtrs  map[string]*Obj
 }
 
 // ElemPtr is a pointer to a slice element.
@@ -373,6 +384,8 @@ func zeroOf(t types.Type) (Value, error) {
 		switch {
 		case u.Info()&types.IsInteger != 0:
 			return int64(0), nil
+		case u.Info()&types.IsFloat != 0:
+			return float64(0), nil
 		case u.Info()&types.IsBoolean != 0:
 			return false, nil
 		case u.Info()&types.IsString != 0:
@@ -386,6 +399,16 @@ func zeroOf(t types.Type) (Value, error) {
 		return (*Map)(nil), nil
 	case *types.Slice:
 		return (*Slice)(nil), nil
+	case *types.Array:
+		elems := make([]Value, u.Len())
+		for i := range elems {
+			z, err := zeroOf(u.Elem())
+			if err != nil {
+				return nil, err
+			}
+			elems[i] = z
+		}
+		return &Slice{Elems: &elems}, nil
 	case *types.Struct:
 		if core.TypeName(t) == "time.Time" {
 			return TimeVal{}, nil
@@ -618,6 +641,11 @@ func (f *frame) stmt(s ast.Stmt) (ctl, error) {
 			}
 		case nil:
 			// nil slice or map: no iterations
+		case string:
+			for i, r := range sl {
+				keys = append(keys, int64(i))
+				elems = append(elems, int64(r))
+			}
 		default:
 			return ctlNone, unsup(s.Pos(), "range over %T", xv)
 		}
@@ -801,6 +829,11 @@ func (f *frame) typeSwitch(s *ast.TypeSwitchStmt) (ctl, error) {
 	inner := newEnv(f.env)
 	if bind != nil {
 		if o := f.info.Implicits[chosen]; o != nil {
+			if _, isTN := v.(TypedNil); isTN {
+				if _, isPtr := o.Type().(*types.Pointer); isPtr {
+					v = nil
+				}
+			}
 			inner.define(o, v)
 		}
 	}
@@ -829,6 +862,9 @@ func valuesEqual(a, b Value) bool {
 		return ok && x == y
 	case bool:
 		y, ok := b.(bool)
+		return ok && x == y
+	case float64:
+		y, ok := b.(float64)
 		return ok && x == y
 	case string:
 		y, ok := b.(string)
@@ -862,6 +898,9 @@ func valuesEqual(a, b Value) bool {
 		return false
 	case ErrVal:
 		y, ok := b.(ErrVal)
+		return ok && x == y
+	case TypedNil:
+		y, ok := b.(TypedNil)
 		return ok && x == y
 	case TimeVal:
 		y, ok := b.(TimeVal)
@@ -931,6 +970,11 @@ func (f *frame) assign(s *ast.AssignStmt) error {
 			return unsup(s.Pos(), "type assertion on %T", v)
 		}
 		if is {
+			if _, isTN := v.(TypedNil); isTN {
+				if _, isPtr := f.info.TypeOf(ta.Type).(*types.Pointer); isPtr {
+					v = nil
+				}
+			}
 			vals = []Value{v, true}
 		} else {
 			z, err := zeroOf(f.info.TypeOf(ta.Type))
@@ -1092,6 +1136,18 @@ func (f *frame) store(l ast.Expr, v Value) error {
 		if !ok1 || !ok2 || sl == nil || idx < 0 || int(idx) >= len(*sl.Elems) {
 			return unsup(l.Pos(), "index store")
 		}
+		if cur, ok := (*sl.Elems)[idx].(*Rec); ok && cur != nil && f.in.pinned[cur] {
+			if nv, ok := copyVal(v).(*Rec); ok && nv != nil {
+				for k := range cur.Fields {
+					delete(cur.Fields, k)
+				}
+				for k, fv := range nv.Fields {
+					cur.Fields[k] = fv
+				}
+				cur.T = nv.T
+				return nil
+			}
+		}
 		(*sl.Elems)[idx] = copyVal(v)
 		return nil
 	}
@@ -1162,13 +1218,32 @@ func constVal(tv types.TypeAndValue) (Value, bool) {
 	}
 	switch tv.Value.Kind() {
 	case constant.Int:
+		if b, ok := tv.Type.Underlying().(*types.Basic); ok && b.Info()&types.IsFloat != 0 {
+			f, _ := constant.Float64Val(tv.Value)
+			return f, true
+		}
 		if n, ok := constant.Int64Val(tv.Value); ok {
 			return n, true
+		}
+		if u, ok := constant.Uint64Val(tv.Value); ok {
+			return int64(u), true
 		}
 	case constant.Bool:
 		return constant.BoolVal(tv.Value), true
 	case constant.String:
 		return constant.StringVal(tv.Value), true
+	case constant.Float:
+		if b, ok := tv.Type.Underlying().(*types.Basic); ok && b.Info()&types.IsFloat != 0 {
+			f, _ := constant.Float64Val(tv.Value)
+			return f, true
+		}
+	}
+	// an integer constant used at a floating-point type
+	if tv.Value.Kind() == constant.Int {
+		if b, ok := tv.Type.Underlying().(*types.Basic); ok && b.Info()&types.IsFloat != 0 {
+			f, _ := constant.Float64Val(tv.Value)
+			return f, true
+		}
 	}
 	return nil, false
 }
@@ -1279,6 +1354,9 @@ func (f *frame) exprMulti(e ast.Expr) ([]Value, error) {
 		if o, ok := v.(*Obj); ok && o != nil && !o.Opaque {
 			return []Value{&Rec{Fields: o.Fields, T: o.T}}, nil
 		}
+		if o, ok := v.(*Obj); (ok && o == nil) || v == nil {
+			return nil, &NilDeref{Pos: e.Pos()}
+		}
 		return nil, unsup(e.Pos(), "dereference")
 	case *ast.UnaryExpr:
 		switch e.Op {
@@ -1296,6 +1374,9 @@ func (f *frame) exprMulti(e ast.Expr) ([]Value, error) {
 			v, err := f.expr(e.X)
 			if err != nil {
 				return nil, err
+			}
+			if fl, ok := v.(float64); ok {
+				return []Value{-fl}, nil
 			}
 			n, ok := v.(int64)
 			if !ok {
@@ -1332,7 +1413,38 @@ func (f *frame) exprMulti(e ast.Expr) ([]Value, error) {
 				sl, ok1 := xv.(*Slice)
 				idx, ok2 := iv.(int64)
 				if ok1 && ok2 && sl != nil && idx >= 0 && int(idx) < len(*sl.Elems) {
+					if rec, ok := (*sl.Elems)[idx].(*Rec); ok && rec != nil {
+						// pointer to a struct element: share its fields; later stores to the
+						// slot are done in place (see store) so the alias stays exact
+						if f.in.pinned == nil {
+							f.in.pinned = map[*Rec]bool{}
+						}
+						f.in.pinned[rec] = true
+						return []Value{&Obj{Name: "&elem", Fields: rec.Fields, T: rec.T}}, nil
+					}
 					return []Value{&ElemPtr{S: sl, I: int(idx)}}, nil
+				}
+			}
+			gid, _ := ast.Unparen(e.X).(*ast.Ident)
+			if se, ok := ast.Unparen(e.X).(*ast.SelectorExpr); ok && f.info.Selections[se] == nil {
+				gid = se.Sel
+			}
+			if id := gid; id != nil {
+				if o, isVar := f.info.Uses[id].(*types.Var); isVar && o.Pkg() != nil && o.Parent() == o.Pkg().Scope() {
+					if gv, ok := f.in.global(o); ok {
+						if rec, ok := gv.(*Rec); ok && rec != nil {
+							name := core.ObjName(o)
+							if f.in.globalPtrs == nil {
+								f.in.globalPtrs = map[string]*Obj{}
+							}
+							if p := f.in.globalPtrs[name]; p != nil {
+								return []Value{p}, nil
+							}
+							p := &Obj{Name: "&" + name, Fields: rec.Fields, T: rec.T}
+							f.in.globalPtrs[name] = p
+							return []Value{p}, nil
+						}
+					}
 				}
 			}
 			return nil, unsup(e.Pos(), "address-of")
@@ -1372,6 +1484,25 @@ func (f *frame) exprMulti(e ast.Expr) ([]Value, error) {
 		if err != nil {
 			return nil, err
 		}
+		if isUnsigned(f.info.TypeOf(e.X)) {
+			if a, ok := l.(int64); ok {
+				if b, ok := r.(int64); ok {
+					if v, handled := unsignedOp(e.Op, uint64(a), uint64(b), f.info.TypeOf(e.X)); handled {
+						return []Value{v}, nil
+					}
+				}
+			}
+		}
+		if e.Op == token.SHL || e.Op == token.SHR {
+			a, ok1 := l.(int64)
+			b, ok2 := r.(int64)
+			if ok1 && ok2 && b >= 0 {
+				if e.Op == token.SHL {
+					return []Value{a << uint(b)}, nil
+				}
+				return []Value{a >> uint(b)}, nil
+			}
+		}
 		return one(binop(e.Pos(), e.Op, l, r))
 	case *ast.CompositeLit:
 		return one(f.compositeLit(e))
@@ -1385,6 +1516,13 @@ func (f *frame) exprMulti(e ast.Expr) ([]Value, error) {
 		iv, err := f.expr(e.Index)
 		if err != nil {
 			return nil, err
+		}
+		if str, ok := xv.(string); ok {
+			idx, ok := iv.(int64)
+			if !ok || idx < 0 || int(idx) >= len(str) {
+				return nil, unsup(e.Pos(), "string index %v out of range for length %d (the real code would panic)", iv, len(str))
+			}
+			return []Value{int64(str[idx])}, nil
 		}
 		if m, ok := xv.(*Map); ok {
 			if m != nil {
@@ -1412,6 +1550,27 @@ func (f *frame) exprMulti(e ast.Expr) ([]Value, error) {
 		xv, err := f.expr(e.X)
 		if err != nil {
 			return nil, err
+		}
+		if str, isStr := xv.(string); isStr {
+			lo, hi := 0, len(str)
+			if e.Low != nil {
+				v, err := f.expr(e.Low)
+				if err != nil {
+					return nil, err
+				}
+				lo = int(v.(int64))
+			}
+			if e.High != nil {
+				v, err := f.expr(e.High)
+				if err != nil {
+					return nil, err
+				}
+				hi = int(v.(int64))
+			}
+			if lo < 0 || hi > len(str) || lo > hi {
+				return nil, unsup(e.Pos(), "string slice [%d:%d] out of range for length %d (the real code would panic)", lo, hi, len(str))
+			}
+			return []Value{str[lo:hi]}, nil
 		}
 		sl, ok := xv.(*Slice)
 		if !ok || e.Slice3 {
@@ -1461,6 +1620,11 @@ func (f *frame) exprMulti(e ast.Expr) ([]Value, error) {
 		if !ok {
 			return nil, unsup(e.Pos(), "forced type assertion fails in the abstract state (would panic)")
 		}
+		if _, isTN := v.(TypedNil); isTN {
+			if _, isPtr := f.info.TypeOf(e.Type).(*types.Pointer); isPtr {
+				v = nil
+			}
+		}
 		return []Value{v}, nil
 	}
 	return nil, unsup(e.Pos(), "expression %T", e)
@@ -1488,9 +1652,69 @@ func embeddedPath(sel *types.Selection) []string {
 	return out
 }
 
+func isUnsigned(t types.Type) bool {
+	if t == nil {
+		return false
+	}
+	b, ok := t.Underlying().(*types.Basic)
+	return ok && b.Info()&types.IsUnsigned != 0
+}
+
+// unsignedOp implements the operators whose result differs between signed and unsigned operands.
+func unsignedOp(op token.Token, a, b uint64, t types.Type) (Value, bool) {
+	mask := uint64(1<<64 - 1)
+	if bt, ok := t.Underlying().(*types.Basic); ok {
+		switch bt.Kind() {
+		case types.Uint8:
+			mask = 0xff
+		case types.Uint16:
+			mask = 0xffff
+		case types.Uint32:
+			mask = 0xffffffff
+		}
+	}
+	switch op {
+	case token.LSS:
+		return a < b, true
+	case token.LEQ:
+		return a <= b, true
+	case token.GTR:
+		return a > b, true
+	case token.GEQ:
+		return a >= b, true
+	case token.QUO:
+		if b == 0 {
+			return nil, false
+		}
+		return int64(a / b), true
+	case token.REM:
+		if b == 0 {
+			return nil, false
+		}
+		return int64(a % b), true
+	case token.SHR:
+		return int64(a >> b), true
+	case token.SHL:
+		return int64((a << b) & mask), true
+	case token.ADD:
+		return int64((a + b) & mask), true
+	case token.SUB:
+		return int64((a - b) & mask), true
+	case token.MUL:
+		return int64((a * b) & mask), true
+	}
+	return nil, false
+}
+
 // dynIs reports whether the dynamic type of v is t (ok) and whether that is decidable (known).
 func dynIs(v Value, t types.Type) (ok, known bool) {
 	name := core.TypeName(t)
+	if tn, isTN := v.(TypedNil); isTN {
+		if _, isIface := t.Underlying().(*types.Interface); isIface {
+			return true, true
+		}
+		return tn.T == name, true
+	}
 	if _, isPtr := t.(*types.Pointer); isPtr {
 		switch x := v.(type) {
 		case *Obj:
@@ -1547,6 +1771,28 @@ func binop(pos token.Pos, op token.Token, l, r Value) (Value, error) {
 				return ls > rs, nil
 			case token.GEQ:
 				return ls >= rs, nil
+			}
+		}
+	}
+	if lf, ok := l.(float64); ok {
+		if rf, ok := r.(float64); ok {
+			switch op {
+			case token.ADD:
+				return lf + rf, nil
+			case token.SUB:
+				return lf - rf, nil
+			case token.MUL:
+				return lf * rf, nil
+			case token.QUO:
+				return lf / rf, nil
+			case token.LSS:
+				return lf < rf, nil
+			case token.LEQ:
+				return lf <= rf, nil
+			case token.GTR:
+				return lf > rf, nil
+			case token.GEQ:
+				return lf >= rf, nil
 			}
 		}
 	}
@@ -1660,6 +1906,41 @@ func (f *frame) compositeLit(e *ast.CompositeLit) (Value, error) {
 	return r, nil
 }
 
+// toParam models the conversion of an argument to an interface-typed
+// parameter: a nil pointer becomes a non-nil interface holding a typed nil.
+func (f *frame) toParam(e *ast.CallExpr, i int, a ast.Expr, v Value) Value {
+	switch x := v.(type) {
+	case nil:
+	case *Obj:
+		if x != nil {
+			return v
+		}
+	default:
+		return v
+	}
+	pt, ok := f.info.TypeOf(a).(*types.Pointer)
+	if !ok {
+		return v
+	}
+	sig, ok := f.info.TypeOf(e.Fun).(*types.Signature)
+	if !ok || sig.Params().Len() == 0 {
+		return v
+	}
+	if i >= sig.Params().Len() {
+		i = sig.Params().Len() - 1
+	}
+	t := sig.Params().At(i).Type()
+	if sig.Variadic() && i == sig.Params().Len()-1 {
+		if st, ok := t.(*types.Slice); ok {
+			t = st.Elem()
+		}
+	}
+	if _, isIface := t.Underlying().(*types.Interface); !isIface {
+		return v
+	}
+	return TypedNil{T: core.TypeName(pt)}
+}
+
 func (f *frame) call(e *ast.CallExpr) ([]Value, error) {
 	// conversions
 	if tv, ok := f.info.Types[e.Fun]; ok && tv.IsType() {
@@ -1669,6 +1950,61 @@ func (f *frame) call(e *ast.CallExpr) ([]Value, error) {
 		v, err := f.expr(e.Args[0])
 		if err != nil {
 			return nil, err
+		}
+		target := tv.Type.Underlying()
+		if bt, ok := target.(*types.Basic); ok {
+			if fl, isF := v.(float64); isF {
+				if bt.Info()&types.IsFloat != 0 {
+					return []Value{fl}, nil
+				}
+				if bt.Info()&types.IsInteger != 0 {
+					return []Value{int64(fl)}, nil
+				}
+			}
+			if n, isI := v.(int64); isI && bt.Info()&types.IsFloat != 0 {
+				return []Value{float64(n)}, nil
+			}
+			switch x := v.(type) {
+			case *Slice:
+				if bt.Info()&types.IsString != 0 {
+					var bs []byte
+					if x != nil {
+						for _, el := range *x.Elems {
+							n, _ := el.(int64)
+							bs = append(bs, byte(n))
+						}
+					}
+					return []Value{string(bs)}, nil
+				}
+			case int64:
+				switch {
+				case bt.Info()&types.IsString != 0:
+					return []Value{string(rune(x))}, nil
+				case bt.Kind() == types.Uint8:
+					return []Value{int64(uint8(x))}, nil
+				case bt.Kind() == types.Uint16:
+					return []Value{int64(uint16(x))}, nil
+				case bt.Kind() == types.Uint32:
+					return []Value{int64(uint32(x))}, nil
+				case bt.Kind() == types.Int32:
+					return []Value{int64(int32(x))}, nil
+				case bt.Kind() == types.Int8:
+					return []Value{int64(int8(x))}, nil
+				case bt.Kind() == types.Int16:
+					return []Value{int64(int16(x))}, nil
+				}
+			}
+		}
+		if st, ok := target.(*types.Slice); ok {
+			if str, isStr := v.(string); isStr {
+				if eb, ok := st.Elem().Underlying().(*types.Basic); ok && eb.Kind() == types.Uint8 {
+					elems := make([]Value, len(str))
+					for i := 0; i < len(str); i++ {
+						elems[i] = int64(str[i])
+					}
+					return []Value{&Slice{Elems: &elems}}, nil
+				}
+			}
 		}
 		switch v.(type) {
 		case int64, bool, string:
@@ -1691,7 +2027,7 @@ func (f *frame) call(e *ast.CallExpr) ([]Value, error) {
 			if err != nil {
 				return err
 			}
-			args = append(args, copyVal(v))
+			args = append(args, f.toParam(e, len(args), a, copyVal(v)))
 		}
 		return nil
 	}
@@ -1788,6 +2124,11 @@ func (f *frame) call(e *ast.CallExpr) ([]Value, error) {
 				if s, ok := args[1].(*Slice); ok && s != nil {
 					for _, x := range *s.Elems {
 						elems = append(elems, copyVal(x))
+					}
+				}
+				if str, ok := args[1].(string); ok {
+					for i := 0; i < len(str); i++ {
+						elems = append(elems, int64(str[i]))
 					}
 				}
 			} else {
